@@ -86,6 +86,13 @@ def main():
         die('DISPLAY_AREA is no longer Rectangle::new(Point::zero(), Size::new_equal(SIZE as u32))')
     if 'pixels:[Option<C>;SIZE*SIZE],' not in sq:
         die('pixels is no longer [Option<C>; SIZE * SIZE]')
+    # MockDisplay::new() = Self::default(); the model's new_display is (empty, false, false)
+    if 'pubfnnew()->Self{Self::default()}' not in sq:
+        die('MockDisplay::new() is no longer Self::default()')
+    if 'fndefault()->Self{Self{pixels:[None;SIZE*SIZE],allow_overdraw:false,allow_out_of_bounds_drawing:false,}}' not in sq:
+        die('Default for MockDisplay is no longer { pixels: [None; SIZE * SIZE], allow_overdraw: false, allow_out_of_bounds_drawing: false }')
+    if sq.count('implDefaultforMockDisplay') + sq.count('Default<C>forMockDisplay') + sq.count('>DefaultforMockDisplay<C>') != 1:
+        die('expected exactly one Default impl for MockDisplay')
     md = re.search(r'letdiff_color=match\(self_color,other_color\)\{\(Some\(_\),None\)=>Some\(Rgb888::(\w+)\),'
                    r'\(None,Some\(_\)\)=>Some\(Rgb888::(\w+)\),\(Some\(s\),Some\(o\)\)ifs!=o=>Some\(Rgb888::(\w+)\),_=>None,\};', sq)
     if not md:
